@@ -115,4 +115,33 @@ theorem C08_table_container (b : Bool) (units : List QUnit) (hd : (units.map QUn
   have h4 : (q.ty == s "build") = false := by rw [hty]; decide
   simp [hty, ty_ne.2.2.2.2.2.2.1, ty_ne.2.2.2.2.2.2.2.1, ty_ne.2.2.2.2.2.2.2.2.1, ty_ne.2.2.2.2.2.2.2.2.2]
 
+/-! ### the formulas behind the names (so that the statements above do not rest on what a model function happens to compute) -/
+
+/-- the service suffix of every unit type, as the statement lists them (the table is extracted from the source, T1) -/
+theorem C08_suffixes :
+    suffixOf (s "container") = [] ∧ suffixOf (s "kube") = [] ∧ suffixOf (s "volume") = s "-volume" ∧ suffixOf (s "network") = s "-network"
+    ∧ suffixOf (s "image") = s "-image" ∧ suffixOf (s "build") = s "-build" ∧ suffixOf (s "pod") = s "-pod" := by decide
+
+/-- `ServiceName=` of the unit's own section if it is assigned, else file stem + suffix of the type -/
+theorem C08_service_name_formula (path : Str) (u : SUnit) :
+    serviceNameOf path u = match lookup u (sectionOf (extension (fileName path))) (s "ServiceName") with
+      | some n => n
+      | none => fileStem (fileName path) ++ suffixOf (extension (fileName path)) := rfl
+
+/-- `NetworkName=` if it is not empty, else `systemd-<file stem>` -/
+theorem C08_network_name_formula (path : Str) (u : SUnit) :
+    networkNameOf path u = (if ((lookup u (s "Network") (s "NetworkName")).getD []).isEmpty then s "systemd-" ++ fileStem (fileName path)
+                            else (lookup u (s "Network") (s "NetworkName")).getD []) := rfl
+
+/-- the first `ImageTag=` that is not empty -/
+theorem C08_build_name_formula (u : SUnit) (t : Str) (h : builtImageName u = some t) :
+    t ∈ lookupAll u (s "Build") (s "ImageTag") ∧ t ≠ [] := by
+  unfold builtImageName at h
+  refine ⟨List.mem_of_find?_eq_some h, ?_⟩
+  have := List.find?_some h
+  intro e; subst e; simp at this
+
+example : serviceNameOf (s "/q/data.volume") [] = s "data-volume" ∧ serviceNameOf (s "/q/web.container") [] = s "web"
+    ∧ networkNameOf (s "/q/front.network") [] = s "systemd-front" := by decide
+
 end Cv
